@@ -256,7 +256,80 @@ func tryMatrix(yield func(Case) bool) {
 	}
 }
 
+
+// exhaustive: every construct with per-node run-time state (return signal, loop iterator, caught error, try
+// bookkeeping) is left "in flight" while the SAME statements are entered again through a recursive call, at
+// recursion depths 1..3: the outer activation must continue with its own state.
+func reentryMatrix(yield func(Case) bool) {
+	n, one, zero := lang.Var("n"), lang.Num("1"), lang.Num("0")
+	callDown := func() *lang.E { return lang.Call(lang.Var("f"), lang.Op("minus", n, one)) }
+	ifDeeper := func(body ...*lang.S) *lang.S {
+		return &lang.S{K: "if", Br: []*lang.Branch{{Cond: lang.Op(">", n, zero), Body: body}}}
+	}
+	recurse := func(rec bool) *lang.S {
+		if rec {
+			return ifDeeper(lang.Rec(callDown()))
+		}
+		return ifDeeper(lang.ExprS(callDown()))
+	}
+	rng := func(a, b string) *lang.E { return lang.Call(lang.Var("range"), lang.Num(a), lang.Num(b)) }
+	type shape struct {
+		name string
+		body func(rec bool) []*lang.S
+	}
+	shapes := []shape{
+		{"return-in-try-finally-recurses", func(rec bool) []*lang.S {
+			return []*lang.S{{K: "try", Body: []*lang.S{lang.Return(lang.Op("plus", n, lang.Num("100")))}, Fin: &lang.Block{Body: []*lang.S{lang.Mark("fin"), recurse(rec), lang.Rec(n)}}}}
+		}},
+		{"return-in-try-except-finally-recurses", func(rec bool) []*lang.S {
+			return []*lang.S{{K: "try", Body: []*lang.S{lang.Return(n)}, Ex: []*lang.Except{{Body: []*lang.S{lang.Mark("never")}}}, Fin: &lang.Block{Body: []*lang.S{recurse(rec)}}}}
+		}},
+		{"range-loop-body-recurses", func(rec bool) []*lang.S {
+			return []*lang.S{{K: "for", Vars: []string{"i"}, E: rng("1", "3"), Body: []*lang.S{lang.Rec(lang.Var("i")), recurse(rec), lang.Rec(lang.Var("i"))}}, lang.Return(lang.Op("times", n, lang.Num("10")))}
+		}},
+		{"list-loop-body-recurses", func(rec bool) []*lang.S {
+			return []*lang.S{{K: "for", Vars: []string{"i"}, E: lang.List(lang.Str("a"), lang.Str("b")), Body: []*lang.S{recurse(rec), lang.Rec(lang.Var("i"))}}, lang.Return(n)}
+		}},
+		{"range-loop-break-after-recursion", func(rec bool) []*lang.S {
+			return []*lang.S{{K: "for", Vars: []string{"i"}, E: rng("1", "4"), Body: []*lang.S{recurse(rec),
+				{K: "if", Br: []*lang.Branch{{Cond: lang.Op("==", lang.Var("i"), lang.Num("2")), Body: []*lang.S{lang.Break()}}}}, lang.Rec(lang.Var("i"))}}, lang.Return(n)}
+		}},
+		{"condition-loop-body-recurses", func(rec bool) []*lang.S {
+			return []*lang.S{lang.Assign(lang.Var("w"), zero), lang.While(lang.Op("<", lang.Var("w"), lang.Num("2")),
+				lang.Assign(lang.Var("w"), lang.Op("plus", lang.Var("w"), one)), recurse(rec), lang.Rec(lang.Var("w"))), lang.Return(lang.Var("w"))}
+		}},
+		{"except-handler-recurses", func(rec bool) []*lang.S {
+			return []*lang.S{{K: "try", Body: []*lang.S{lang.ExprS(lang.Call(lang.Var("raise"), lang.Str("A"), n))},
+				Ex: []*lang.Except{{Types: []string{"A"}, As: "e", Body: []*lang.S{recurse(rec), lang.Rec(lang.Dot(lang.Var("e"), "detail"))}}}}, lang.Return(n)}
+		}},
+		{"otherwise-recurses", func(rec bool) []*lang.S {
+			return []*lang.S{{K: "try", Body: []*lang.S{lang.Mark("body")}, Ex: []*lang.Except{{Body: []*lang.S{lang.Mark("never")}}},
+				Oth: &lang.Block{Body: []*lang.S{recurse(rec), lang.Mark("oth")}}, Fin: &lang.Block{Body: []*lang.S{lang.Rec(n)}}}, lang.Return(n)}
+		}},
+		{"try-body-recurses-then-raises", func(rec bool) []*lang.S {
+			return []*lang.S{{K: "try", Body: []*lang.S{recurse(rec), lang.ExprS(lang.Call(lang.Var("raise"), lang.Str("B"), n))},
+				Ex: []*lang.Except{{Types: []string{"B"}, As: "e", Body: []*lang.S{lang.Rec(lang.Dot(lang.Var("e"), "detail"))}}}, Fin: &lang.Block{Body: []*lang.S{lang.Rec(n)}}}, lang.Return(n)}
+		}},
+		{"plain-recursion-in-return", func(rec bool) []*lang.S {
+			return []*lang.S{ifDeeper(lang.Return(lang.Op("plus", callDown(), n))), lang.Return(zero)}
+		}},
+	}
+	for _, sh := range shapes {
+		for _, rec := range []bool{true, false} {
+			for depth := 1; depth <= 3; depth++ {
+				fn := &lang.S{K: "func", Fn: &lang.Func{Name: "f", Params: []string{"n"}, Body: append([]*lang.S{lang.Rec(n)}, sh.body(rec)...)}}
+				body := []*lang.S{fn, lang.Rec(lang.Call(lang.Var("f"), lang.Num(fmt.Sprint(depth)))), lang.Rec(lang.Call(lang.Var("f"), lang.Num("1"))), lang.Mark("end")}
+				if !yield(Case{Prog: &lang.Prog{Body: body}}) {
+					return
+				}
+			}
+		}
+	}
+}
+
 func TestExhaustive(t *testing.T) {
+	hx.Enumerate(t, "reentry-matrix", reentryMatrix, runCase)
+	hx.E.Exhaustive("reentry-matrix", "10 constructs with per-node run-time state (return in try/finally, range / list / condition loops, except handler, otherwise, try body) whose body calls the enclosing function again x {result observed, not observed} x recursion depth 1..3")
 	hx.Enumerate(t, "try-matrix", tryMatrix, runCase)
 	hx.E.Exhaustive("try-matrix", "exit kind {fallthrough, break, continue, return, raise listed, raise unlisted, runtime error} x 9 except-clause shapes x {otherwise} x {finally} x enclosing construct {top level, loop, function, loop in function}")
 }
